@@ -17,6 +17,14 @@ func (v *Val) UnmarshalJSON(b []byte) error {
 	if err := json.Unmarshal(b, &m); err != nil {
 		return err
 	}
+	if raw, ok := m["nilc"]; ok {
+		_ = json.Unmarshal(raw, &v.NilC)
+		delete(m, "nilc")
+	}
+	if raw, ok := m["lt"]; ok {
+		_ = json.Unmarshal(raw, &v.LT)
+		delete(m, "lt")
+	}
 	for k, raw := range m {
 		switch k {
 		case "b":
